@@ -4,6 +4,9 @@ package otlptracehttp
 
 import (
 	"context"
+	"crypto/tls"
+	"net/http"
+	"net/url"
 	"time"
 
 	"google.golang.org/protobuf/proto"
@@ -29,8 +32,22 @@ func vTimeoutOpts(to string) []Option {
 		return []Option{WithTimeout(30 * time.Second)}
 	case "z":
 		return []Option{WithTimeout(0)}
+	case "q":
+		return []Option{WithTimeout(80 * time.Millisecond)}
 	}
 	return nil
+}
+
+// vPathOpts: the construction path dimension (vPath: d shared transport, t TLS configuration, p proxy, b both)
+func vPathOpts() []Option {
+	var o []Option
+	if vPath == "t" || vPath == "b" {
+		o = append(o, WithTLSClientConfig(&tls.Config{}))
+	}
+	if vPath == "p" || vPath == "b" {
+		o = append(o, WithProxy(func(*http.Request) (*url.URL, error) { return nil, nil }))
+	}
+	return o
 }
 
 func vHost(host string) string {
@@ -58,7 +75,12 @@ func vNewUploader(host string, gz bool, rc RetryConfig, to string) *vUploader {
 	if gz {
 		comp = GzipCompression
 	}
-	c := NewClient(append([]Option{WithInsecure(), WithEndpoint(vHost(host)), WithRetry(rc), WithCompression(comp)}, vTimeoutOpts(to)...)...)
+	c := NewClient(append(append([]Option{WithInsecure(), WithEndpoint(vHost(host)), WithRetry(rc), WithCompression(comp)}, vTimeoutOpts(to)...), vPathOpts()...)...)
+	// a cloned transport (TLS configuration / proxy set) does not inherit the protocols registered on ourTransport: the
+	// scripted one is registered on the clone — the http.Client itself stays the one NewClient built
+	if tr, ok := c.(*client).client.Transport.(*http.Transport); ok && tr != ourTransport {
+		tr.RegisterProtocol("http", vDispatch{})
+	}
 	spans := []*tracepb.ResourceSpans{{ScopeSpans: []*tracepb.ScopeSpans{{Spans: []*tracepb.Span{{
 		Name: "verif-c14", TraceId: []byte{1, 2, 3, 4, 5, 6, 7, 8, 9, 10, 11, 12, 13, 14, 15, 16}, SpanId: []byte{1, 2, 3, 4, 5, 6, 7, 8},
 		StartTimeUnixNano: 1, EndTimeUnixNano: 2}}}}}}
